@@ -163,9 +163,24 @@ func ordEvalSnapshot(r *core.Run, u []ordVariant, c *ordCase) {
 		report("first-bucket-not-first", fmt.Sprintf("the first bucket (ids %v) does not hold the crashing goroutine %d", a.Buckets[0].IDs, s.Goroutines[0].ID))
 		return
 	}
+	// what a bucket contains is decided on its member goroutines as given, not on what the bucket signature claims
+	byID := map[int]*stack.Goroutine{}
+	for _, g := range s.Goroutines {
+		byID[g.ID] = g
+	}
+	memberStack := func(b *stack.Bucket) *stack.Stack {
+		if g := byID[b.IDs[0]]; g != nil {
+			return &g.Stack
+		}
+		return &b.Stack
+	}
 	for i := 1; i < len(a.Buckets); i++ {
 		for j := i + 1; j < len(a.Buckets); j++ {
 			bi, bj := a.Buckets[i], a.Buckets[j]
+			if len(bi.IDs) != 0 && len(bj.IDs) != 0 && allStdlib(memberStack(bi)) && hasUserCode(memberStack(bj)) {
+				report("stdlib-before-user-code", fmt.Sprintf("bucket of all-stdlib goroutines (ids %v) presented before a bucket of goroutines with main/module/GOPATH/module-cache frames (ids %v)", bi.IDs, bj.IDs))
+				return
+			}
 			if stack.VerifSignatureLess(&bj.Signature, &bi.Signature) {
 				report("order-contradicts-comparator", fmt.Sprintf("bucket %d (ids %v) is presented before bucket %d (ids %v) although the comparator orders them the other way", i, bi.IDs, j, bj.IDs))
 				return
